@@ -804,9 +804,20 @@ class P2Gen:
         return f"ld<{rep[1]}>({len(self.vi) - 1})"
 
     def ratio(self, a, b):
+        """Exact ratio of two makers of the same dimension.  Distinct units with ratio exactly 1 ("twins", e.g.
+        becquerel/hertz, bits-per-... ) are reported as NOT combinable: mixing them is a documented hard error of the
+        library ("Broken strict total ordering"), identical in every configuration and packaging, hence outside what a
+        generated well-formed program may do."""
         if a == b:
             return Fraction(1)
-        return self.ratio_tab.get((a, b))
+        r = self.ratio_tab.get((a, b))
+        if isinstance(r, Fraction) and r == 1:
+            return None
+        return r
+
+    def twins(self, a, b):
+        r = self.ratio_tab.get((a, b))
+        return a != b and isinstance(r, Fraction) and r == 1
 
     def known(self, a, b):
         ka, kb = KNOWN.get(a), KNOWN.get(b)
@@ -947,6 +958,8 @@ class P2Gen:
             self.out(f"{p}.sym", f"s * au::symbols::{u['sym']}", ex(s), "construct")
 
     def fam_products(self, rep, u, w):
+        if self.twins(u["mk"], w["mk"]):
+            w = u           # a product of twins needs the same (undefined) ordering as mixing them
         k, isf = rep[0], rep[4]
         p = f"{k}.{u['mk']}x{w['mk']}"
         x, y = self.rand_val(rep), self.rand_val(rep, nonzero=True, positive=not rep[3])
@@ -1225,6 +1238,8 @@ class P2Gen:
             self.out(f"label.{pf}.{u['mk']}", f"au::unit_label(au::{pf}(au::{u['mk']}))", None, "label")
         for _ in range(4 if self.units else 0):
             u, w = r.choice(self.units), r.choice(self.units)
+            if self.twins(u["mk"], w["mk"]):
+                w = u
             form = r.choice(["au::{a} * au::{b}", "au::{a} / au::{b}", "au::pow<2>(au::{a}) / au::{b}",
                              "au::squared(au::{a}) * au::inverse(au::{b})", "au::cubed(au::{a})", "au::root<2>(au::{a}) * au::{b}",
                              "au::{a} * au::mag<3>() / au::mag<7>()"])
